@@ -1,0 +1,29 @@
+//go:build verif
+
+// Copyright 2026 The Scriggo Authors. All rights reserved.
+// Use of this source code is governed by a BSD-style
+// license that can be found in the LICENSE file.
+
+package runtime
+
+import "strings"
+
+// Verification hooks for property C26 (Markdown escaping neutralises
+// Markdown syntax). Compiled only with the "verif" build tag. Add-only:
+// every function calls the real, unexported escaper.
+
+// VerifC26MarkdownEscape calls markdownEscape(w, s, allowHTML) with a
+// strings.Builder as writer and returns what was written and the error.
+func VerifC26MarkdownEscape(s string, allowHTML bool) (string, error) {
+	var b strings.Builder
+	err := markdownEscape(&b, s, allowHTML)
+	return b.String(), err
+}
+
+// VerifC26MarkdownCodeBlockEscape calls markdownCodeBlockEscape(w, s, spaces)
+// with a strings.Builder as writer and returns what was written and the error.
+func VerifC26MarkdownCodeBlockEscape(s string, spaces bool) (string, error) {
+	var b strings.Builder
+	err := markdownCodeBlockEscape(&b, s, spaces)
+	return b.String(), err
+}
